@@ -94,6 +94,24 @@ func c01Build(r *vr.Report, c c01Config) *c01Setup {
 			menuAll(m)
 		}
 	}
+	// forged votes: the faulty validator signs votes that name the correct validators. They are deliverable to everybody
+	// from the start (for nil) or from the moment the block exists; they must be refused, so they cost nothing.
+	forgedFor := func(bid types.BlockID, from int32) (out []uint32) {
+		for r := from; r <= c.MaxRound; r++ {
+			for _, victim := range s.correct {
+				for _, t := range []tmproto.SignedMsgType{tmproto.PrevoteType, tmproto.PrecommitType} {
+					m := w.forgedVote(s.byz, victim, t, r, bid)
+					for j, cv := range s.correct {
+						if cv != victim {
+							out = append(out, dsPend(int32(m), j))
+						}
+					}
+				}
+			}
+		}
+		return out
+	}
+	e.freeMenu = append(e.freeMenu, forgedFor(types.BlockID{}, 0)...)
 	for r := int32(0); r <= c.MaxRound; r++ {
 		if w.proposerOf(r) == s.byz {
 			m1, b1 := w.byzProposal(s.byz, r, -1, []types.Tx{types.Tx("x1")}, false, fmt.Sprintf("X1r%d", r))
@@ -137,6 +155,20 @@ func c01Build(r *vr.Report, c c01Config) *c01Setup {
 		var out []uint32
 		switch m.Kind {
 		case "proposal":
+			if !m.Byz && m.POL == -1 {
+				ff := forgedFor(m.mis[0].Msg.(*ProposalMessage).Proposal.BlockID, m.Round)
+				e.fmMtx.Lock()
+				have := map[uint32]bool{}
+				for _, p := range e.freeMenu {
+					have[p] = true
+				}
+				for _, p := range ff {
+					if !have[p] {
+						e.freeMenu = append(e.freeMenu, p)
+					}
+				}
+				e.fmMtx.Unlock()
+			}
 			if !m.Byz && m.POL == -1 && c.MaxByz > 0 {
 				// votes of the faulty validator for a block become possible once the block exists
 				p := m.mis[0].Msg.(*ProposalMessage).Proposal
